@@ -165,6 +165,8 @@ impl ObjFiber {
     { unimplemented!() }
 }
 
+// a native function object as far as Vm::call_native is concerned
+pub struct ObjNativeS { pub manages_stack: bool }
 // the VM as far as this unit is concerned: instruction pointer, "exception in flight" flag, content of the active fiber
 pub struct Vm { pub ip: usize, pub handling_exception: bool, pub fib: ObjFiber, pub ghost code: Seq<u8>,
                 pub active_chunk: Gc<Chunk>, pub active_module: Gc<RefCell<ObjModule>> }
@@ -280,6 +282,48 @@ impl Vm {
     //@  requires old(self).fib.exc_handlers@.len() > 0 ==> old(self).fib.exc_handlers@.last().init_stack_size < STACK_MAX
     //@  ensures @a_failing_operation_is_delivered_to_the_innermost_handler old(self).fib.exc_handlers@.len() > 0 ==> r is Ok && final(self).fib.exc_handlers@ == old(self).fib.exc_handlers@.drop_last() && final(self).ip == old(self).fib.exc_handlers@.last().catch_ip
     //@  ensures @an_uncaught_failure_reports_the_address_of_the_failing_instruction old(self).fib.exc_handlers@.len() == 0 ==> r is Err && final(self).fib.error_ip == Some(old(self).ip)
+    //@  ensures final(self).fib.handlers_ok()
+    //@end
+
+    // Calling a native function (host-provided built-in): its error surfaces as a catchable value delivered to the
+    // innermost handler; uncaught, the trace names the address of the call. A native that does not manage the stack
+    // itself has its arguments removed and its result put in the callee slot.
+    #[verifier::external_body]
+    fn poke(&mut self, depth: usize, value: Value)
+        requires depth < old(self).fib.stack.view.len()
+        ensures final(self).fib.stack.view == old(self).fib.stack.view.update(old(self).fib.stack.view.len() - 1 - depth, value), final(self).fib.frames == old(self).fib.frames, final(self).fib.exc_handlers == old(self).fib.exc_handlers,
+            final(self).ip == old(self).ip, final(self).handling_exception == old(self).handling_exception, final(self).code == old(self).code,
+            final(self).fib.return_ip == old(self).fib.return_ip, final(self).fib.return_value == old(self).fib.return_value, final(self).fib.error_ip == old(self).fib.error_ip, final(self).fib.pending_exception == old(self).fib.pending_exception, final(self).fib.return_handler_count == old(self).fib.return_handler_count
+    { unimplemented!() }
+    #[verifier::external_body]
+    fn discard(&mut self, num: usize)
+        requires num <= old(self).fib.stack.view.len()
+        ensures final(self).fib.stack.view == old(self).fib.stack.view.take(old(self).fib.stack.view.len() - num), final(self).fib.frames == old(self).fib.frames, final(self).fib.exc_handlers == old(self).fib.exc_handlers,
+            final(self).ip == old(self).ip, final(self).handling_exception == old(self).handling_exception, final(self).code == old(self).code,
+            final(self).fib.return_ip == old(self).fib.return_ip, final(self).fib.return_value == old(self).fib.return_value, final(self).fib.error_ip == old(self).fib.error_ip, final(self).fib.pending_exception == old(self).fib.pending_exception, final(self).fib.return_handler_count == old(self).fib.return_handler_count
+    { unimplemented!() }
+    // set_native_arity / take_native_arity: bookkeeping for Vm::native_arg (not part of this unit's state)
+    #[verifier::external_body]
+    fn note_native_arity(&mut self, n: Option<usize>) ensures *final(self) == *old(self) { unimplemented!() }
+    // `(native.function)(self, arg_count)`: a native that does not manage the stack leaves the active fiber's stacks as
+    // they are (it reads its arguments through peek); one that does (Fiber.call / Fiber.yield) is outside this contract
+    #[verifier::external_body]
+    fn run_native(&mut self, native: &ObjNativeS, arg_count: usize) -> (r: Result<Value, Error>)
+        ensures !native.manages_stack ==> final(self).fib == old(self).fib && final(self).ip == old(self).ip && final(self).handling_exception == old(self).handling_exception && final(self).code == old(self).code
+    { unimplemented!() }
+
+    //@fn file=yarel/src/vm.rs path=Vm::call_native ret=r props=C08,C17,C02
+    //@  sig "native: Gc<ObjNative>" => "native: &ObjNativeS"
+    //@  subst "self.active_fiber_mut().set_native_arity(arg_count);" => "self.note_native_arity(Some(arg_count));"
+    //@  subst "self.active_fiber_mut().take_native_arity();" => "self.note_native_arity(None);"
+    //@  subst "let function = native.function; let result = function(self, arg_count);" => "let result = self.run_native(native, arg_count);"
+    //@  subst "let exc_object = self.new_root_obj_err_from_error(error); self.poke(0, Value::ObjInstance(exc_object.as_gc()));" => "let exc_object = self.new_root_obj_err_from_error(error); self.poke(0, exc_object);"
+    //@  requires !native.manages_stack, old(self).fib.handlers_ok(), arg_count < old(self).fib.stack.view.len()
+    //@  requires forall|i: int| 0 <= i < old(self).fib.exc_handlers@.len() ==> (#[trigger] old(self).fib.exc_handlers@[i]).init_stack_size <= old(self).fib.stack.view.len() - arg_count - 1
+    //@  requires old(self).fib.exc_handlers@.len() > 0 ==> old(self).fib.exc_handlers@.last().init_stack_size < STACK_MAX
+    //@  ensures @a_failing_native_is_delivered_to_the_innermost_handler (r is Ok && final(self).fib.exc_handlers@ != old(self).fib.exc_handlers@) ==> final(self).fib.exc_handlers@ == old(self).fib.exc_handlers@.drop_last() && final(self).ip == old(self).fib.exc_handlers@.last().catch_ip
+    //@  ensures @an_uncaught_native_failure_reports_the_address_of_the_call r is Err ==> old(self).fib.exc_handlers@.len() == 0 && final(self).fib.error_ip == Some(old(self).ip)
+    //@  ensures @the_result_replaces_callee_and_arguments (r is Ok && final(self).fib.exc_handlers@ == old(self).fib.exc_handlers@) ==> final(self).fib.stack.view.len() == old(self).fib.stack.view.len() - arg_count && final(self).fib.stack.view.drop_last() == old(self).fib.stack.view.take(old(self).fib.stack.view.len() - arg_count - 1)
     //@  ensures final(self).fib.handlers_ok()
     //@end
 
